@@ -167,6 +167,8 @@ def base_graph(spec):
             G.add_edge(e[0], e[1], flow=e[2])
         else:
             G.add_edge(e[0], e[1])
+    for e, l in zip(spec["edges"], spec.get("lens") or []):
+        G.edges[e[0], e[1]]["len"] = l
     return G
 
 
@@ -326,9 +328,19 @@ def build_dag_model(case, spec, G, mk, T):
     opts = dict(mk["opts"])
     kw = dict(optimization_options=opts, additional_starts=list(spec.get("starts", [])), additional_ends=list(spec.get("ends", [])))
     subp = [[tuple(e) for e in c] for c in mk.get("subpaths", [])]
+    full_cov = True
+    if mk.get("covlen") is not None:          # the constraints need only a fraction of their LENGTH in some path
+        kw.update(subpath_constraints_coverage_length=mk["covlen"], length_attr="len"); full_cov = mk["covlen"] == 1
+    elif mk.get("cov") is not None:           # ... or only a fraction of their edges
+        kw.update(subpath_constraints_coverage=mk["cov"]); full_cov = mk["cov"] == 1
+    if subp and not full_cov:
+        case.dists.append("dag_model:partial_constraint_coverage")
     try:
         if mk["cls"] == "kPathCover":
             m = fp.kPathCover(G, k=mk["k"], subpath_constraints=subp, **kw)
+        elif mk["cls"] == "kFlowDecomp" and opts.get("optimize_with_flow_safe_paths") is False:
+            kw.pop("additional_starts"); kw.pop("additional_ends")
+            m = fp.kFlowDecomp(G, flow_attr="flow", k=mk["k"], subpath_constraints=subp, **kw)
         elif mk["cls"] == "kFlowDecomp":
             m = fp.kFlowDecomp(G, flow_attr="flow", k=mk["k"], optimization_options=opts)      # no additional starts/ends (spec has none)
         else:
@@ -343,7 +355,9 @@ def build_dag_model(case, spec, G, mk, T):
     lists = [[tuple(e) for e in l] for l in (m.safe_lists or [])]
     flow_safe = mk["cls"] == "kFlowDecomp" and opts.get("optimize_with_flow_safe_paths")
     X = [tuple(e) for e in (m.trusted_edges_for_safety or [])]
-    items = [[e] for e in X] + [[tuple(e) for e in c] for c in mk.get("subpaths", [])]
+    # a subpath constraint is a trusted item only if some solution path must contain ALL of it; with partial coverage
+    # (by edge count or by length) it is not, and safety is decided for the trusted edges alone (sound: fewer items = stricter)
+    items = [[e] for e in X] + ([[tuple(e) for e in c] for c in mk.get("subpaths", [])] if full_cov else [])
     det0 = {"model": mk}
     if flow_safe:
         fl = flow_tokens(G)
@@ -358,8 +372,9 @@ def build_dag_model(case, spec, G, mk, T):
         def res(ok, out, l=l):
             case.counts["b_safe_lists"] += 1
             if not ok:
-                case.fail("DAG model: a sequence in model.safe_lists is not safe for the trusted edges / subpath constraints",
-                          dict(det0, sequence=g.norm(l)))
+                case.fail("DAG model: a sequence in model.safe_lists is not safe for the trusted edges / subpath constraints"
+                          + ("" if full_cov else " (the constraints need only partial coverage, so they are not trusted items)"),
+                          dict(det0, sequence=g.norm(l), X=g.norm(X)))
         ask_safe(case, g, items, l, res)
     try:
         ptf = [[tuple(e) for e in p] for p in m._get_paths_to_fix_from_safe_lists()]
@@ -505,6 +520,8 @@ def build_cyc_model(case, G, mk, T):
         kw["subset_constraints"] = [[tuple(e) for e in c] for c in mk["subsets"]]
     if mk.get("ignore"):
         kw["elements_to_ignore"] = [tuple(e) for e in mk["ignore"]]
+    if mk.get("trusted") and mk["cls"] == "kLeastAbsErrorsCycles":
+        kw["trusted_edges_for_safety"] = [tuple(e) for e in mk["trusted"]]
     try:
         if mk["cls"] == "kPathCoverCycles":
             m = fp.kPathCoverCycles(G, k=mk["k"], **kw)
@@ -690,6 +707,25 @@ def gen_dag_spec(rng, i):
         base_cons = [[list(e) for e in c] for c in cons if all(e[0] != st.source and e[1] != st.sink for e in c)]
         spec["model"] = {"cls": rng.choice(["kMinPathError", "kLeastAbsErrors"]), "k": rng.choice([1, 2, 3, 4]), "opts": o,
                          "subpaths": base_cons if rng.random() < 0.4 else []}
+    # partial coverage of subpath constraints (by length, rarely by edge count): constraints from arbitrary routes of the input graph
+    mk = spec.get("model")
+    if mk and rng.random() < 0.45 and not (mk["cls"] == "kFlowDecomp" and (starts or ends)):
+        allp = gen.all_st_paths(G, 300)
+        cs = []
+        for _ in range(rng.randint(1, 3)):
+            es = gen.pairs(rng.choice(allp))
+            if len(es) >= 2:
+                n_ = min(len(es), rng.choice([2, 2, 3, 4])); a_ = rng.randrange(0, len(es) - n_ + 1)
+                cs.append([list(e) for e in es[a_:a_ + n_]])
+        if cs:
+            mk["subpaths"] = cs
+            spec["lens"] = [rng.choice([1, 1, 2, 5, 10]) for _ in spec["edges"]]
+            if rng.random() < 0.8:
+                mk["covlen"] = rng.choice([0.3, 0.5, 0.75, 0.75, 1])
+            else:
+                mk["cov"] = rng.choice([0.5, 0.75])
+            if mk["cls"] == "kFlowDecomp":
+                mk["opts"] = {"optimize_with_flow_safe_paths": False, "optimize_with_greedy": False}
     return spec
 
 
@@ -730,6 +766,9 @@ def gen_cyc_spec(rng, i):
         if rng.random() < 0.2:
             es = list(G.edges())
             mk["ignore"] = [list(e) for e in rng.sample(es, min(len(es), rng.randint(1, 2)))]
+        if cls == "kLeastAbsErrorsCycles" and rng.random() < 0.6:      # a sparse caller-supplied trusted set
+            es = list(G.edges())
+            mk["trusted"] = [list(e) for e in rng.sample(es, min(len(es), rng.randint(1, 4)))]
         spec["models"].append(mk)
     return spec
 
@@ -752,7 +791,66 @@ def gen_flow_spec(rng, i):
             "scale": scale, "nodup": rng.random() < 0.7}
 
 
-BUILDERS = {"dag": (gen_dag_spec, build_dag_case), "cyc": (gen_cyc_spec, build_cyc_case), "flow": (gen_flow_spec, build_flow_case)}
+# ----------------------------------------------------------------------------- slot stream (sparse trusted sets)
+def gen_slot_spec(rng, i):
+    """Many cheap instances for the clause "sequences in different slots never occur together": sparse trusted sets
+    (a few trusted edges, everything else has weight zero in the antichain computation) on dense DAGs / DAGs with cycles."""
+    import flowpaths as fp
+    sub = ["dagw", "dagp", "cyc", "cyc"][i % 4]
+    if sub == "cyc":
+        G = None
+        while G is None:
+            G = gen_scc.rand_dag_with_cycles(rng, gen.rand_dag, nmax=rng.choice([6, 7, 8]))
+        st = fp.stDiGraph(G); kmax = rng.choice([3, 6, 8])
+    else:
+        G = gen.rand_dag(rng, nmax=rng.choice([7, 8, 8]))
+        st = fp.stDAG(G); kmax = 6 if sub == "dagw" else 4
+    g = Gr(st)
+    X = rng.sample(g.edges, rng.randint(1, min(kmax, len(g.edges))))
+    return {"kind": "slot", "sub": sub, "edges": [list(e) for e in G.edges()], "nodes": list(G.nodes()), "X": g.norm(X),
+            "weights": [rng.randint(1, 5) for _ in X], "largest": rng.random() < 0.3}
+
+
+def build_slot_case(spec, T):
+    import flowpaths as fp
+    case = Case(spec)
+    G = base_graph(spec)
+    sub = spec["sub"]
+    st = fp.stDiGraph(G) if sub == "cyc" else fp.stDAG(G)
+    g = Gr(st)
+    X = g.denorm(spec["X"])
+    case.dists.append("slot:" + sub); case.dists.append(f"slot:|X|={len(X)}")
+    if sub == "dagw":
+        # what stDAG exposes: a maximum-weight antichain for a weight function that is zero outside X
+        wf = {e: w for e, w in zip(X, spec["weights"])}
+        cost, ac = st.compute_max_edge_antichain(get_antichain=True, weight_function=wf)
+        slots = [[tuple(e)] for e in ac]; label = "stDAG.compute_max_edge_antichain (weights only on the trusted edges)"
+    elif sub == "dagp":
+        from flowpaths.utils import safetypathcovers as spc
+        lists = spc.safe_paths(st, list(X), no_duplicates=False, threads=T)
+        stub = object.__new__(fp.kPathCover)
+        stub.G = st; stub.safe_lists = lists; stub.optimize_with_safety_from_largest_antichain = spec["largest"]
+        slots = [[tuple(e) for e in p] for p in stub._get_paths_to_fix_from_safe_lists()]
+        label = "AbstractPathModelDAG._get_paths_to_fix_from_safe_lists (safe paths of a sparse trusted set)"
+    else:
+        from flowpaths.utils import safetypathcoverscycles as spcc
+        seqs = spcc.maximal_safe_sequences_via_dominators(st, set(X))
+        slots = [[tuple(e) for e in q] for q in st.get_longest_incompatible_sequences(seqs)] if seqs else []
+        label = "stDiGraph.get_longest_incompatible_sequences (maximal safe sequences of a sparse trusted set)"
+    case.nontrivial = len(slots) >= 2
+    case.counts["b_slot_instances"] += 1
+    if len(slots) >= 2:
+        def res(out):
+            case.counts["b_slot_sets_decided"] += 1
+            if out.strip() != "1":
+                case.fail(f"{label}: two of the returned slot sequences occur together in one source-to-sink walk (pairwise_incompat_dec = false)",
+                          {"slots": [g.norm(q) for q in slots], "X": spec["X"]})
+        case.ask("sf_pairwise " + common.toks(g.s, g.t, g.G(), len(slots), [g.E(q) for q in slots]), res)
+    case.sample = None
+    return case
+
+
+BUILDERS = {"slot": (gen_slot_spec, build_slot_case), "dag": (gen_dag_spec, build_dag_case), "cyc": (gen_cyc_spec, build_cyc_case), "flow": (gen_flow_spec, build_flow_case)}
 
 
 # ----------------------------------------------------------------------------- run / replay
@@ -798,10 +896,12 @@ def run(ctx):
                 "additional_ends, the deciders running on the s-t graph with the extra source / sink edges; X = all st-edges / base edges / "
                 "random subset / edges of random subpath constraints), cyclic stream (random digraph or SCC gadgets self-loop, 2-cycle, "
                 "3-cycle, figure-eight, nested, 2-cycle+loop on a DAG skeleton with parallel inter-SCC edges, <= 8 nodes; 1-2 k-models with "
-                "safety options), flow stream (DAG with a superposition of 1-4 weighted paths, scaled by 2^j); non-trivial = DAG with >= 2 "
+                "safety options), flow stream (DAG with a superposition of 1-4 weighted paths, scaled by 2^j), slot stream (dense DAG <= 8 nodes or DAG with 1-3 planted cycles "
+                "<= 11 nodes, SPARSE trusted set of 1-8 edges: antichain / paths_to_fix / get_longest_incompatible_sequences decided pairwise incompatible); "
+                "DAG models also with subpath constraints that need only partial coverage (by length / edge count); non-trivial = DAG with >= 2 "
                 "source-to-sink paths / digraph with a non-trivial SCC / flow with a safe path of >= 2 edges; distinct by (edges, X, models)")
     T = solver_threads()
-    plan = [("cyc", ctx.budget(600, 12000)), ("dag", ctx.budget(400, 8000)), ("flow", ctx.budget(400, 8000))]
+    plan = [("cyc", ctx.budget(600, 12000)), ("dag", ctx.budget(400, 8000)), ("flow", ctx.budget(400, 8000)), ("slot", ctx.budget(10000, 120000))]
     cases = []
     for kind, n in plan:
         genf, buildf = BUILDERS[kind]
@@ -835,7 +935,7 @@ def run(ctx):
             ctx.dist(d)
         for k, v in c.counts.items():
             eng = {"a": "E2_returned_sequences_decided_safe", "b": "E2_model_safety_state_certified", "c": "E3_dag_functions",
-                   "control": "negative_controls", "flow": "E2_returned_sequences_decided_safe", "model": "models", "dag": "models"}[k.split("_")[0]]
+                   "control": "negative_controls", "slot": "E2_model_safety_state_certified", "flow": "E2_returned_sequences_decided_safe", "model": "models", "dag": "models"}[k.split("_")[0]]
             ctx.count(eng, k, v)
         seen = set()
         for what, detail, concrete, key in c.failures:
